@@ -141,13 +141,65 @@ theorem mismatch_invisible (s : State) (hs : s.cfg.skipVerify = false) (name : N
         rw [h] <;> exact ⟨by simp, hv⟩
     · rcases writeDisk_mismatch (crc := crc) hs h1 size pl with h | h <;> rw [h] <;> exact ⟨by simp, fun d => rfl⟩
 
+/-- **C01 (1'')** Readers are not locked out while a write-through call runs.  At every state that exists
+between the atomic steps of `WriteBlobToCacheWithMetaInfo` — after the reservation, after the entry was added
+to the memory cache but not yet queued, after a failed attempt released its reservation, after the blob was
+renamed into the cache directory but before its metainfo was written, … — whatever a concurrent reader can
+read under any name hashes to that name.  (The model publishes an entry only after the digest check; moving
+the `Add` before the check makes this theorem fail.) -/
+theorem served_inside_write (s : State) (hs : s.cfg.skipVerify = false) (hg : GoodStore H crc s)
+    (name : Name) (size : Nat) (atts : List Attempt) (pl : Int) :
+    ∀ s' ∈ writeBlobTrace H crc s name size atts pl, Served H crc s' :=
+  fun s' hm => served_of_good (writeBlobTrace_good hs hg name size atts pl s' hm)
+
+/-- … for every reachable state in which the call starts -/
+theorem served_inside_write_reachable (cfg : Cfg) (hs : cfg.skipVerify = false) (ops : List Op)
+    (name : Name) (size : Nat) (atts : List Attempt) (pl : Int) :
+    ∀ s' ∈ writeBlobTrace H crc (run H crc cfg ops) name size atts pl, Served H crc s' :=
+  served_inside_write _ (by rw [run_cfg]; exact hs) (run_good cfg hs ops) name size atts pl
+
+/-- the trace ends in the state the call returns with (or is empty when nothing changed) -/
+theorem writeBlobTrace_last (s : State) (name : Name) (size : Nat) (atts : List Attempt) (pl : Int) :
+    (s :: writeBlobTrace H crc s name size atts pl).getLast? = some (writeBlob H crc s name size atts pl).1 := by
+  have hdisk : ∀ (s0 : State) (att : Option Attempt),
+      (s0 :: diskTrace H crc s0 name size att pl).getLast? = some (writeDisk H crc s0 name size att pl).1 := by
+    intro s0 att
+    unfold diskTrace writeDisk writeCacheFile
+    cases att with
+    | none => simp
+    | some a =>
+      simp only
+      by_cases hf : a.fail = true
+      · simp [hf]
+      · by_cases hv : verifyOK H s0.cfg name a.data = true
+        · by_cases hu : usable s0 name = true
+          · by_cases hl : a.data.length = size
+            · simp [hf, hv, hl, hu]
+            · simp [hf, hv, hl, hu]
+          · simp [hf, hv, hu]
+        · simp [hf, hv]
+  unfold writeBlobTrace writeBlob
+  split
+  · cases hadd : addToMem H crc (reserved s size) name atts.head? size pl with
+    | none =>
+      simp only
+      have := hdisk (released (reserved s size) size) (atts.drop 1).head?
+      simp only [List.getLast?_cons_cons] at this ⊢
+      exact this
+    | some s2 =>
+      cases hh : atts.head? with
+      | none => rw [hh] at hadd; simp [addToMem] at hadd
+      | some a => simp [List.getLast?_cons_cons]
+  · exact hdisk s _
+
 /-- **C01 (3)** (the store is not vacuous) a direct cache write of content that does hash to a valid
-name succeeds and makes content readable under the name. -/
-theorem matching_write_served (s : State) (name : Name) (b : Bytes) (hv : validName name = true) (hb : H b = name) :
+name succeeds and makes content readable under the name (unless the disk refuses: `usable`). -/
+theorem matching_write_served (s : State) (name : Name) (b : Bytes) (hv : validName name = true) (hb : H b = name)
+    (hu : usable s name = true) :
     (apply H crc s (.createCache name b)).2 = .ok ∧
     ∃ b', readable (apply H crc s (.createCache name b)).1 name = some b' := by
   have hok : verifyOK H s.cfg name b = true := by simp [verifyOK, hv, hb]
-  simp only [apply, createCache, writeCacheFile, hok]
+  simp only [apply, createCache, writeCacheFile, hok, hu]
   refine ⟨by simp, ?_⟩
   simp only [Bool.false_eq_true, if_false, Bool.not_true]
   unfold readable
